@@ -124,12 +124,131 @@ pub fn exec(line: &str) -> String {
                 }
             }
         }
+        ["p_c08", hd, he] => p_c08(&text!(hd), &text!(he)),
+        ["p_c17", hd] => p_c17(&text!(hd)),
         ["superset", a, h] => b(shape!(a).is_superset(&text!(h))),
         ["supersetchk", a, h] => match shape!(a).is_superset_checked(&text!(h)) {
             Ok(x) => format!("ok {}", b(x)),
             Err(e) => show_err(&e),
         },
         _ => "bad-op".into(),
+    }
+}
+
+/// C08 evaluated on the implementation: idempotence, null absorption, object/array structure;
+/// prints the two merge orders so that their meanings can be compared by the reference semantics.
+fn p_c08(d: &str, e: &str) -> String {
+    let (Ok(sd), Ok(se)) = (JsonShape::from_str(d), JsonShape::from_str(e)) else {
+        return "skip".into();
+    };
+    let src = |v: &[&str]| JsonShape::from_sources(&v.iter().map(|s| s.to_string()).collect::<Vec<_>>());
+    if src(&[d, d]) != Ok(sd.clone()) {
+        return "violated: from_sources([d,d]) != from_str(d)".into();
+    }
+    let opt = json_shape::verif::as_optional(sd.clone());
+    if src(&[d, "null"]) != Ok(opt.clone()) || src(&["null", d]) != Ok(opt) {
+        return "violated: null absorption".into();
+    }
+    let (Ok(s1), Ok(s2)) = (src(&[d, e]), src(&[e, d])) else {
+        return "violated: from_sources([d,e]) failed".into();
+    };
+    let o1 = format!("{{\"k\":{d},\"x\":1}}");
+    let o2 = format!("{{\"k\":{e},\"y\":\"s\"}}");
+    match src(&[&o1, &o2]) {
+        Ok(JsonShape::Object { content, optional: false }) => {
+            if content.get("k") != Some(&s1)
+                || content.get("x") != Some(&JsonShape::Number { optional: true })
+                || content.get("y") != Some(&JsonShape::String { optional: true })
+                || content.len() != 3
+            {
+                return "violated: object structure".into();
+            }
+        }
+        _ => return "violated: object structure (not an object)".into(),
+    }
+    let a1 = format!("[{d},{d}]");
+    let a2 = format!("[{e}]");
+    let want = JsonShape::Array { r#type: Box::new(s1.clone()), optional: false };
+    if src(&[&a1, &a2]) != Ok(want) {
+        return "violated: array structure".into();
+    }
+    format!("ok {} {}", sexp(&s1), sexp(&s2))
+}
+
+/// C17 evaluated on the implementation: the shape of a document is recomputed from the shapes the
+/// implementation gives to its direct sub-documents, by an independent reading of the specification.
+fn p_c17(d: &str) -> String {
+    let Ok(v) = serde_json::from_str::<serde_json::Value>(d) else { return "skip".into() };
+    fn walk(v: &serde_json::Value) -> Result<(), String> {
+        let text = serde_json::to_string(v).unwrap();
+        let got = JsonShape::from_str(&text).map_err(|e| format!("from_str failed on {text}: {e}"))?;
+        let sub = |x: &serde_json::Value| JsonShape::from_str(&serde_json::to_string(x).unwrap()).unwrap();
+        let want: Option<JsonShape> = match v {
+            serde_json::Value::Null => Some(JsonShape::Null),
+            serde_json::Value::Bool(_) => Some(JsonShape::Bool { optional: false }),
+            serde_json::Value::Number(_) => Some(JsonShape::Number { optional: false }),
+            serde_json::Value::String(_) => Some(JsonShape::String { optional: false }),
+            serde_json::Value::Object(m) => Some(JsonShape::Object {
+                content: m.iter().map(|(k, x)| (k.clone(), sub(x))).collect(),
+                optional: false,
+            }),
+            serde_json::Value::Array(xs) => {
+                let es: Vec<JsonShape> = xs.iter().map(sub).collect();
+                if es.is_empty() {
+                    None // the property leaves `[]` unspecified
+                } else if es.iter().all(|e| *e == es[0]) {
+                    Some(JsonShape::Array { r#type: Box::new(es[0].clone()), optional: false })
+                } else if es.iter().all(|e| matches!(e, JsonShape::Object { .. })) {
+                    let mut content = std::collections::BTreeMap::new();
+                    let mut specified = true;
+                    let maps: Vec<&std::collections::BTreeMap<String, JsonShape>> = es
+                        .iter()
+                        .map(|e| match e {
+                            JsonShape::Object { content, .. } => content,
+                            _ => unreachable!(),
+                        })
+                        .collect();
+                    let keys: std::collections::BTreeSet<&String> = maps.iter().flat_map(|m| m.keys()).collect();
+                    for k in keys {
+                        let occ: Vec<&JsonShape> = maps.iter().filter_map(|m| m.get(k)).collect();
+                        if occ.iter().any(|s| *s != occ[0]) {
+                            specified = false; // one key, two value shapes: not covered by the statement
+                            break;
+                        }
+                        let s = if occ.len() == maps.len() {
+                            occ[0].clone()
+                        } else {
+                            json_shape::verif::as_optional(occ[0].clone())
+                        };
+                        content.insert(k.clone(), s);
+                    }
+                    if specified {
+                        Some(JsonShape::Array {
+                            r#type: Box::new(JsonShape::Object { content, optional: false }),
+                            optional: false,
+                        })
+                    } else {
+                        None
+                    }
+                } else {
+                    Some(JsonShape::Tuple { elements: es, optional: false })
+                }
+            }
+        };
+        if let Some(w) = want {
+            if w != got {
+                return Err(format!("{text}: expected {w}, got {got}"));
+            }
+        }
+        match v {
+            serde_json::Value::Array(xs) => xs.iter().try_for_each(walk),
+            serde_json::Value::Object(m) => m.values().try_for_each(walk),
+            _ => Ok(()),
+        }
+    }
+    match walk(&v) {
+        Ok(()) => "ok".into(),
+        Err(e) => format!("violated: {}", hex(e.as_bytes())),
     }
 }
 
